@@ -21,7 +21,7 @@ ID_KINDS = ['v4', 'v4', 'v4', 'v1', 'v5', 'nonrfc', 'garbage']
 ENTRY_POINTS = ['parse_observable', 'mem_store_ctor', 'mem_source_ctor', 'mem_sink_ctor', 'mem_store_add', 'mem_sink_add',
                 'mem_source_load', 'mem_store_load', 'fs_sink_add', 'fs_store_add', 'fs_get', 'fs_all_versions', 'fs_query',
                 'fs_store_get', 'env_add', 'roundtrip', 'mem_store_add_list', 'mem_store_add_bundle', 'mem_store_load_bundle',
-                'fs_sink_add_list', 'fs_sink_add_text', 'fs_store_query', 'fs_store_all_versions']
+                'fs_sink_add_list', 'fs_sink_add_text', 'fs_store_query', 'fs_store_all_versions', 'fs_mixed_versions']
 
 
 PRELOADABLE = ('mem_store_add', 'mem_sink_add', 'mem_source_load', 'mem_store_load', 'env_add', 'mem_store_add_list',
@@ -92,7 +92,7 @@ class C14(Profile):
     probes = ['named_version_differs_from_detected', 'nonrfc_id_rejected', 'uuidv1_id', 'accepted_object_checked',
               'rejected_by_both', 'dict_returned', 'roundtrip_checked', 'fs_entry', 'memory_entry', 'load_entry',
               'nonrfc_ref_rejected', 'fs_layout_flat', 'fs_layout_flat_in_versioned_dir', 'fs_layout_versioned',
-              'store_already_held_this_version']
+              'store_already_held_this_version', 'history_of_mixed_spec_versions_on_disk']
     rule = ('plans: 20-60 ops, each = (entry point among parse_observable, Memory{Store,Source,Sink} construction/add/load, '
             'FileSystem{Sink,Store}.add, FileSystem{Source,Store}.get/all_versions/query, Environment.add) x version in {None,2.0,2.1} x '
             'allow_custom x one of 23 inputs that separate the versions (differing required properties, spec_version present/absent, '
@@ -255,8 +255,58 @@ class C14(Profile):
             o = call(S.query, [s.Filter('type', '=', d['type']), s.Filter('id', '=', sid)], version=v)
         return o, (list(o.value) if o.ok else None)
 
+    MIXED = [('identity20', 'identity21'), ('indicator20', 'indicator21'), ('malware20', 'malware21'), ('relationship20', 'relationship21'),
+             ('creator20', 'creator21'), ('custom_prop20', 'custom_prop21'), ('widget20', 'widget21')]
+
+    def op_mixed_versions(self, world, sw, op, i):
+        """One id whose history on disk is partly 2.0 and partly 2.1 content (two version files in its directory), read with a
+        named version: the answer is what direct parses of BOTH files under that version give - whichever file the
+        directory listing yields first."""
+        s = self.stix2
+        from stix2 import FileSystemSource, FileSystemStore
+        a, v = op['a'], op['v']
+        idk = op['idk'] if op['idk'] != 'garbage' else 'v4'
+        fam = family(op['n'], idk, op['refk'])
+        k20, k21 = self.MIXED[op['n'] % len(self.MIXED)]
+        d1, d2 = C._copy(fam[k20]), C._copy(fam[k21])
+        if op['n'] // 7 % 2:
+            d1, d2 = d2, d1
+        d2['modified'] = '2017-02-01T12:34:56.000Z'
+        root = self.fresh_dir(sw, i, 'fsm')
+        relroot = os.path.relpath(root, sw.disk.root)
+        for d, fn in ((d1, '20170101123456000'), (d2, '20170201123456000')):
+            sw.disk.raw_write(os.path.join(relroot, d['type'], d['id'], fn + '.json'), json.dumps(d).encode())
+        refs = [call(s.parse, C._copy(d), allow_custom=a, version=v) for d in (d1, d2)]
+        S = FileSystemStore(root, allow_custom=a) if op['n'] % 2 else FileSystemSource(root, allow_custom=a)
+        how = ['all_versions', 'get', 'query'][op['n'] // 2 % 3]
+        if how == 'all_versions':
+            out = call(S.all_versions, d1['id'], version=v)
+        elif how == 'get':
+            out = call(S.get, d1['id'], version=v)
+        else:
+            out = call(S.query, [s.Filter('id', '=', d1['id'])], version=v)
+        world.probe('history_of_mixed_spec_versions_on_disk')
+        world.state('fs_mixed_versions', how, v, a, k20, idk, out.tag.split(':')[0], tuple(r.ok for r in refs))
+        world.log(op='fs_mixed_versions', how=how, v=v, a=a, pair=k20, idk=idk, outcome=out.tag, refs=[r.tag for r in refs])
+        world.compared()
+        want_ok = all(r.ok for r in refs)
+        if out.ok != want_ok:
+            raise Violation('same-as-direct-parse', 'C14.accept-mismatch/fs_mixed_versions/%s/%s' % (how, 'entry-accepts' if out.ok else 'entry-rejects'),
+                            dict(version=v, allow_custom=a, files=[d1, d2], direct=[r.tag for r in refs], entry=out.tag))
+        if out.ok:
+            world.changed()
+            objs = [out.value] if how == 'get' else list(out.value)
+            if how != 'get' and len(objs) != 2:
+                raise Violation('same-as-direct-parse', 'C14.count/fs_mixed_versions', dict(n=len(objs), how=how))
+            if v:
+                for got in objs:
+                    if got is not None and not isinstance(got, dict) and not isinstance(got, self.bases[v]):
+                        raise Violation('version-honoured', 'C14.class/fs_mixed_versions/named-%s' % v, dict(got=type(got).__module__))
+
     def op_entry(self, world, sw, op, i):
         s = self.stix2
+        if op['ep'] == 'fs_mixed_versions':
+            return self.op_mixed_versions(world, sw, op, i)
         d = family(op['n'], op['idk'], op['refk'])[op['inp']]
         a, v, ep = op['a'], op['v'], op['ep']
         is_sco_ep = ep == 'parse_observable'
